@@ -270,7 +270,7 @@ def classify(ur):
     for e in ur.result.errors:
         spans = e['spans']
         # site span: the one that is not the contract clause ("failed this postcondition" / "failed precondition")
-        clause_sp = [s for s in spans if re.search(r'failed (this )?(post|pre)condition|failed precondition', s['label'])]
+        clause_sp = [s for s in spans if re.search(r'failed (this )?(post|pre)condition|failed precondition|failed this invariant', s['label'])]
         site_sp = [s for s in spans if s not in clause_sp]
         sp_site = (site_sp or spans)[0] if (site_sp or spans) else None
         if sp_site is None:
